@@ -368,8 +368,10 @@ impl PacketContents {
         self.num_chunks += 1;
     }
     fn can_fit_chunk(&self, data: &[u8], vital: bool) -> bool {
-        // current size + chunk header + chunk length
-        self.data.len() + protocol::chunk_header_size(vital) + data.len() <= MAX_PAYLOAD
+        // The packet header counts the chunks in a single byte.
+        self.num_chunks < u8::MAX
+            // current size + chunk header + chunk length
+            && self.data.len() + protocol::chunk_header_size(vital) + data.len() <= MAX_PAYLOAD
     }
     fn clear(&mut self) {
         *self = PacketContents::new();
